@@ -4,7 +4,7 @@ package c18
 import (
 	"fmt"
 	"runtime"
-	"testing"
+	"runtime/debug"
 
 	"pgregory.net/rapid"
 	"pipelined.dev/signal"
@@ -397,19 +397,49 @@ func Check(c *Case) (res kit.Result) {
 	default:
 		return
 	}
-	var allocs float64
-	if p, v := kit.Try(func() { allocs = testing.AllocsPerRun(100, op) }); p {
-		res.Failf("%s[%s,%s] with %d channels, %d frames panicked: %v", c.Op, c.T, c.U, c.C, c.F, v)
-		return
+	// the exact number of heap objects allocated by `runs` calls (testing.AllocsPerRun divides in
+	// integers: one allocation every few calls is reported as 0); the smallest of up to three
+	// attempts, so that a stray allocation of the runtime's own is not held against the library
+	runs := 100
+	if c.C*c.F <= 4096 {
+		runs = 300
 	}
-	if allocs > limit {
-		res.Failf("%s[%s%s] with %d channels, %d frames (window %v): %.0f heap allocations per call, want at most %.0f", c.Op, c.T, map[bool]string{true: "," + c.U, false: ""}[c.U != ""], c.C, c.F, c.Window, allocs, limit)
+	allowed := uint64(limit * float64(runs))
+	best := ^uint64(0)
+	for try := 0; try < 3 && best > allowed; try++ {
+		var total uint64
+		if p, v := kit.Try(func() { total = TotalAllocs(runs, op) }); p {
+			res.Failf("%s[%s,%s] with %d channels, %d frames panicked: %v", c.Op, c.T, c.U, c.C, c.F, v)
+			return
+		}
+		if total < best {
+			best = total
+		}
+	}
+	if best > allowed {
+		res.Failf("%s[%s%s] with %d channels, %d frames (window %v): %d heap allocations in %d calls (after a warm-up call, garbage collector off), want at most %d", c.Op, c.T, map[bool]string{true: "," + c.U, false: ""}[c.U != ""], c.C, c.F, c.Window, best, runs, allowed)
 		return
 	}
 	if c.F >= 1 {
 		res.Class(c.Op)
 	}
 	return
+}
+
+// TotalAllocs: heap objects allocated by runs calls of f after one warm-up call (first calls are
+// measured separately, see firstCall), on one P and with the garbage collector off - a
+// collection would empty the pools, whose refill is an allocation the property does not forbid.
+func TotalAllocs(runs int, f func()) uint64 {
+	defer runtime.GOMAXPROCS(runtime.GOMAXPROCS(1))
+	defer debug.SetGCPercent(debug.SetGCPercent(-1))
+	f()
+	var m1, m2 runtime.MemStats
+	runtime.ReadMemStats(&m1)
+	for i := 0; i < runs; i++ {
+		f()
+	}
+	runtime.ReadMemStats(&m2)
+	return m2.Mallocs - m1.Mallocs
 }
 
 func FP(c *Case) uint64 {
